@@ -21,6 +21,8 @@ import (
 	"fmt"
 	"go/ast"
 	"go/token"
+	"os"
+	"path/filepath"
 	"sort"
 	"strings"
 )
@@ -45,11 +47,13 @@ type pstate struct {
 	taint  map[string][]int // local variable -> slots it aliases (first = the pooled object itself)
 	defers []pdefer
 	events []string
-	next   int // next free slot
+	next   int   // next free slot
+	ret    []int // slots the value returned by the (inlined) function aliases
+	panics bool  // the goroutine is panicking: deferred calls run, nothing else
 }
 
 func (s *pstate) clone() *pstate {
-	t := &pstate{taint: map[string][]int{}, next: s.next}
+	t := &pstate{taint: map[string][]int{}, next: s.next, panics: s.panics, ret: append([]int(nil), s.ret...)}
 	for k, v := range s.taint {
 		t.taint[k] = append([]int(nil), v...)
 	}
@@ -264,7 +268,23 @@ func (c *pctx) classify(e ast.Expr, st *pstate) (slots []int, alias bool, err er
 			return argSlots, argAlias, nil
 		}
 		return nil, false, c.errf(e, "unknown call shape %s", es(e))
-	case *ast.CompositeLit, *ast.FuncLit, *ast.KeyValueExpr:
+	case *ast.CompositeLit:
+		// T{.., f: e, ..}: the value aliases whatever one of its elements aliases
+		var all []int
+		al := false
+		for _, el := range x.Elts {
+			if kv, ok := el.(*ast.KeyValueExpr); ok {
+				el = kv.Value
+			}
+			s, a, err := c.classify(el, st)
+			if err != nil {
+				return nil, false, err
+			}
+			all = unionSlots(all, s)
+			al = al || a
+		}
+		return all, al, nil
+	case *ast.FuncLit, *ast.KeyValueExpr:
 		bad := false
 		ast.Inspect(e, func(n ast.Node) bool {
 			if id, ok := n.(*ast.Ident); ok {
@@ -292,6 +312,21 @@ func (c *pctx) inlinable(e ast.Expr, st *pstate) (*ast.CallExpr, *ast.FuncDecl, 
 		return nil, nil, nil
 	}
 	fd := c.callee(call)
+	if fd == nil {
+		// recv.M(...) where recv is (part of) a pooled object and M is a method of the package that is not one of
+		// the known methods of bytes.Buffer / zlib.Writer: execute M with its receiver bound to the object
+		if sel, ok := call.Fun.(*ast.SelectorExpr); ok && !poolAliasMethods[sel.Sel.Name] && !poolScalarMethods[sel.Sel.Name] {
+			if m := c.funcs[sel.Sel.Name]; m != nil && m.Recv != nil && m.Body != nil {
+				rs, _, err := c.classify(sel.X, st)
+				if err != nil {
+					return nil, nil, err
+				}
+				if len(rs) > 0 {
+					return call, m, nil
+				}
+			}
+		}
+	}
 	if fd == nil || fd.Body == nil {
 		return nil, nil, nil
 	}
@@ -316,14 +351,33 @@ func (c *pctx) inline(call *ast.CallExpr, fd *ast.FuncDecl, st *pstate) ([]*psta
 		return nil, c.errf(call, "inlining too deep")
 	}
 	params, _ := fieldNames(fd.Type.Params)
-	if len(params) != len(call.Args) || call.Ellipsis != token.NoPos {
-		return nil, c.errf(call, "cannot bind the arguments of %s", fd.Name.Name)
+	inner := &pstate{taint: map[string][]int{}, events: append([]string(nil), st.events...), next: st.next}
+	if sel, ok := call.Fun.(*ast.SelectorExpr); ok && fd.Recv != nil {
+		rs, _, err := c.classify(sel.X, st)
+		if err != nil {
+			return nil, err
+		}
+		if len(rs) > 0 {
+			rn := recvName(fd)
+			if rn == "" {
+				return nil, c.errf(call, "method %s has no receiver name", fd.Name.Name)
+			}
+			inner.taint[rn] = rs
+		}
 	}
-	inner := &pstate{taint: map[string][]int{}, events: st.events, next: st.next}
+	bindable := len(params) == len(call.Args) && call.Ellipsis == token.NoPos
+	if n := len(fd.Type.Params.List); n > 0 {
+		if _, variadic := fd.Type.Params.List[n-1].Type.(*ast.Ellipsis); variadic {
+			bindable = false
+		}
+	}
 	for i, a := range call.Args {
 		s, al, err := c.classify(a, st)
 		if err != nil {
 			return nil, err
+		}
+		if len(s) > 0 && !bindable {
+			return nil, c.errf(call, "cannot bind the pooled argument of %s", fd.Name.Name)
 		}
 		if len(s) > 0 {
 			if !al {
@@ -347,6 +401,7 @@ func (c *pctx) inline(call *ast.CallExpr, fd *ast.FuncDecl, st *pstate) ([]*psta
 	}
 	for _, l := range live { // fell off the end
 		c.runDefers(fd, l)
+		l.ret = nil
 		done = append(done, l)
 	}
 	var out []*pstate
@@ -354,6 +409,8 @@ func (c *pctx) inline(call *ast.CallExpr, fd *ast.FuncDecl, st *pstate) ([]*psta
 		o := st.clone()
 		o.events = d.events
 		o.next = d.next
+		o.ret = d.ret
+		o.panics = d.panics
 		out = append(out, o)
 	}
 	return out, nil
@@ -376,6 +433,11 @@ func (c *pctx) block(list []ast.Stmt, live []*pstate, top bool) (out []*pstate, 
 	for _, s := range list {
 		var next []*pstate
 		for _, st := range live {
+			if st.panics { // unwinding: only the deferred calls of this frame run
+				c.runDefers(s, st)
+				done = append(done, st)
+				continue
+			}
 			l, d, err := c.stmt(s, st, top)
 			if err != nil {
 				return nil, nil, err
@@ -411,7 +473,21 @@ func (c *pctx) assign(n ast.Node, lhs, rhs []ast.Expr, st *pstate) ([]*pstate, e
 		if call, fd, err := c.inlinable(rhs[0], st); err != nil {
 			return nil, err
 		} else if fd != nil {
-			return c.inline(call, fd, st)
+			l, err := c.inline(call, fd, st)
+			if err != nil {
+				return nil, err
+			}
+			for _, r := range l {
+				if len(r.ret) > 0 && !r.panics {
+					if id, ok := lhs[0].(*ast.Ident); ok && id.Name != "_" {
+						r.taint[id.Name] = r.ret
+					} else if !ok {
+						r.events = append(r.events, fmt.Sprintf("EReturnAlias %d", r.ret[0]))
+					}
+				}
+				r.ret = nil
+			}
+			return l, nil
 		}
 	}
 	var all []int
@@ -519,10 +595,29 @@ func (c *pctx) stmt(s ast.Stmt, st *pstate, top bool) (live []*pstate, done []*p
 			st.events = append(st.events, fmt.Sprintf("EPut %d", sl[0]))
 			return []*pstate{st}, nil, nil
 		}
+		if call, ok := x.X.(*ast.CallExpr); ok {
+			if id, ok := call.Fun.(*ast.Ident); ok && id.Name == "panic" && c.funcs["panic"] == nil {
+				for _, a := range call.Args {
+					sl, _, err := c.classify(a, st)
+					if err != nil {
+						return nil, nil, err
+					}
+					if err := c.use(s, st, sl); err != nil {
+						return nil, nil, err
+					}
+				}
+				st.panics = true
+				c.runDefers(s, st)
+				return nil, []*pstate{st}, nil
+			}
+		}
 		if call, fd, err := c.inlinable(x.X, st); err != nil {
 			return nil, nil, err
 		} else if fd != nil {
 			l, err := c.inline(call, fd, st)
+			for _, r := range l {
+				r.ret = nil
+			}
 			return l, nil, err
 		}
 		// x.Reset(y): x now works on y
@@ -616,6 +711,102 @@ func (c *pctx) stmt(s ast.Stmt, st *pstate, top bool) (live []*pstate, done []*p
 			}
 		}
 		return live, done, nil
+	case *ast.RangeStmt, *ast.ForStmt:
+		// a loop is executed 0, 1 and 2 times (every event sequence of a longer run repeats the body's events)
+		var body *ast.BlockStmt
+		var header []ast.Expr
+		var post ast.Stmt
+		if r, ok := x.(*ast.RangeStmt); ok {
+			body = r.Body
+			sl, al, err := c.classify(r.X, st)
+			if err != nil {
+				return nil, nil, err
+			}
+			if err := c.use(s, st, sl); err != nil {
+				return nil, nil, err
+			}
+			for _, kv := range []ast.Expr{r.Key, r.Value} {
+				if id, ok := kv.(*ast.Ident); ok && id.Name != "_" {
+					if al {
+						st.taint[id.Name] = sl // an element of a pooled container
+					} else {
+						delete(st.taint, id.Name)
+					}
+				} else if kv != nil && !ok {
+					return nil, nil, c.errf(s, "unknown range variable")
+				}
+			}
+		} else {
+			f := x.(*ast.ForStmt)
+			body, post = f.Body, f.Post
+			if f.Init != nil {
+				l, d, err := c.stmt(f.Init, st, top)
+				if err != nil || len(l) != 1 || len(d) != 0 {
+					return nil, nil, c.errf(s, "unsupported for-initialiser (%v)", err)
+				}
+			}
+			if f.Cond != nil {
+				header = append(header, f.Cond)
+			}
+		}
+		hasBranch := false
+		ast.Inspect(body, func(n ast.Node) bool {
+			if _, ok := n.(*ast.BranchStmt); ok {
+				hasBranch = true
+			}
+			return true
+		})
+		if hasBranch {
+			return nil, nil, c.errf(s, "break / continue / goto inside a loop of a pool user")
+		}
+		cur := []*pstate{st}
+		for iter := 0; iter <= 2; iter++ {
+			for _, s0 := range cur {
+				for _, h := range header {
+					sl, _, err := c.classify(h, s0)
+					if err != nil {
+						return nil, nil, err
+					}
+					if err := c.use(s, s0, sl); err != nil {
+						return nil, nil, err
+					}
+				}
+				live = append(live, s0.clone()) // the loop ends here
+			}
+			if iter == 2 {
+				break
+			}
+			l, d, err := c.block(body.List, cur, top)
+			if err != nil {
+				return nil, nil, err
+			}
+			done = append(done, d...)
+			if post != nil {
+				var l2 []*pstate
+				for _, s0 := range l {
+					if s0.panics {
+						l2 = append(l2, s0)
+						continue
+					}
+					a, b, err := c.stmt(post, s0, top)
+					if err != nil {
+						return nil, nil, err
+					}
+					l2 = append(l2, a...)
+					done = append(done, b...)
+				}
+				l = l2
+			}
+			cur = nil
+			for _, s0 := range l {
+				if s0.panics {
+					live = append(live, s0) // unwinds at the next statement / function end
+				} else {
+					cur = append(cur, s0)
+				}
+			}
+		}
+		return live, done, nil
 	case *ast.ReturnStmt:
 		if len(x.Results) == 1 {
 			if call, fd, err := c.inlinable(x.Results[0], st); err != nil {
@@ -626,6 +817,10 @@ func (c *pctx) stmt(s ast.Stmt, st *pstate, top bool) (live []*pstate, done []*p
 					return nil, nil, err
 				}
 				for _, r := range l {
+					if len(r.ret) > 0 && top && !r.panics {
+						r.events = append(r.events, fmt.Sprintf("EReturnAlias %d", r.ret[0]))
+						r.ret = nil
+					}
 					c.runDefers(s, r)
 				}
 				return nil, l, nil
@@ -639,9 +834,10 @@ func (c *pctx) stmt(s ast.Stmt, st *pstate, top bool) (live []*pstate, done []*p
 			}
 			if al {
 				if !top {
-					return nil, nil, c.errf(s, "an inlined function returns pooled memory")
+					st.ret = unionSlots(st.ret, sl) // the caller decides what happens to it
+				} else {
+					st.events = append(st.events, fmt.Sprintf("EReturnAlias %d", sl[0]))
 				}
-				st.events = append(st.events, fmt.Sprintf("EReturnAlias %d", sl[0]))
 			} else {
 				all = unionSlots(all, sl)
 			}
@@ -836,5 +1032,635 @@ func genCacheSkeleton(repo string, out *bytes.Buffer) error {
 	}
 	out.WriteString("(* nbt/typeinfo.go: cachedTypeFields = Load-or-return; compute typeFields; LoadOrStore-and-return.\n   fieldCache is a sync.Map touched by nothing else in package nbt *)\n")
 	out.WriteString("Definition cache_prog : list cstmt :=\n  [CSLoadReturn; CSCompute; CSLoadOrStoreReturn].\n\n")
+	return nil
+}
+
+// ---------------------------------------------------------------- table of synchronisation users
+
+// genLockTable enumerates, over every package of the repository except data/, examples/ and cmd/ (generated
+// tables and programs), each struct type or package-level variable that owns a synchronisation object
+// (sync.Mutex, sync.RWMutex, sync.Cond, sync.Pool, sync.Map, sync.Once, atomic.*, a channel) and emits one row
+//
+//	mkLR type kind sync-field protected-fields methods-that-lock [(method, field) touched WITHOUT the lock]
+//
+// mutex / rwmutex / cond:  a field is "protected" when some method touches it while holding the lock and some
+//	method modifies it (assignment, ++, delete, index assignment, or a method call on it); fields that are only
+//	ever read (set by the constructor) are immutable and need no lock.
+// chan-confined:  a struct with channel fields and no mutex whose state is owned by the methods that receive
+//	from those channels (and the methods they call); the other methods may only send on the channels.
+// Statements are walked in order with a "lock held" flag (Lock/RLock sets it, Unlock/RUnlock clears it, a
+// deferred Unlock leaves it set to the end, a block that ends in return/panic does not leak its flag).
+// `go func` literals assigning to a field of a local are listed as kind goroutine-write.
+type lockRow struct {
+	typ, kind, field string
+	protected        []string
+	locking          []string
+	unlocked         [][2]string
+}
+
+func isSyncType(t string) string {
+	t = strings.TrimPrefix(t, "*")
+	switch {
+	case t == "sync.Mutex":
+		return "mutex"
+	case t == "sync.RWMutex":
+		return "rwmutex"
+	case t == "sync.Cond":
+		return "cond"
+	case t == "sync.Pool":
+		return "pool"
+	case t == "sync.Map":
+		return "map"
+	case t == "sync.Once":
+		return "once"
+	case t == "sync.WaitGroup":
+		return "waitgroup"
+	case strings.HasPrefix(t, "atomic."):
+		return "atomic"
+	}
+	return ""
+}
+
+func typeString(e ast.Expr) string {
+	switch x := e.(type) {
+	case *ast.ChanType:
+		return "chan"
+	case *ast.IndexExpr: // generic instantiation atomic.Pointer[T]
+		return typeString(x.X)
+	case *ast.StarExpr:
+		return "*" + typeString(x.X)
+	}
+	return es(e)
+}
+
+func recvTypeOf(fd *ast.FuncDecl) (name, recv string) {
+	if fd.Recv == nil || len(fd.Recv.List) != 1 {
+		return "", ""
+	}
+	t := fd.Recv.List[0].Type
+	if s, ok := t.(*ast.StarExpr); ok {
+		t = s.X
+	}
+	switch x := t.(type) {
+	case *ast.IndexExpr:
+		t = x.X
+	case *ast.IndexListExpr:
+		t = x.X
+	}
+	id, ok := t.(*ast.Ident)
+	if !ok {
+		return "", ""
+	}
+	if len(fd.Recv.List[0].Names) == 1 {
+		recv = fd.Recv.List[0].Names[0].Name
+	}
+	return id.Name, recv
+}
+
+type ltouch struct {
+	method, field string
+	held          bool
+}
+
+type lwalker struct {
+	recv    string
+	fields  map[string]bool
+	mutexes map[string]bool // names of the lock fields (for a cond: the cond field, locked through .L)
+	method  string
+	touches []ltouch
+	mutated map[string]bool
+	locks   bool
+	calls   map[string]bool // recv.m() calls
+	recvsCh bool            // receives from an own channel field
+	chans   map[string]bool
+}
+
+// lockOp recognises recv.M.Lock() / RLock / Unlock / RUnlock and recv.C.L.Lock() ...
+func (w *lwalker) lockOp(e ast.Expr) (op string, ok bool) {
+	call, isCall := e.(*ast.CallExpr)
+	if !isCall {
+		return "", false
+	}
+	sel, isSel := call.Fun.(*ast.SelectorExpr)
+	if !isSel {
+		return "", false
+	}
+	switch sel.Sel.Name {
+	case "Lock", "RLock", "Unlock", "RUnlock":
+	default:
+		return "", false
+	}
+	x := sel.X
+	if s2, ok := x.(*ast.SelectorExpr); ok && s2.Sel.Name == "L" {
+		x = s2.X
+	}
+	s3, ok3 := x.(*ast.SelectorExpr)
+	if !ok3 {
+		return "", false
+	}
+	id, okid := s3.X.(*ast.Ident)
+	if !okid || id.Name != w.recv || !w.mutexes[s3.Sel.Name] {
+		return "", false
+	}
+	return sel.Sel.Name, true
+}
+
+func (w *lwalker) fieldOf(e ast.Expr) string {
+	for {
+		switch x := e.(type) {
+		case *ast.SelectorExpr:
+			if id, ok := x.X.(*ast.Ident); ok && id.Name == w.recv && w.fields[x.Sel.Name] {
+				return x.Sel.Name
+			}
+			e = x.X
+		case *ast.IndexExpr:
+			e = x.X
+		case *ast.StarExpr:
+			e = x.X
+		case *ast.ParenExpr:
+			e = x.X
+		default:
+			return ""
+		}
+	}
+}
+
+// exprs records the field touches of an expression
+func (w *lwalker) expr(n ast.Node, held bool) {
+	if n == nil {
+		return
+	}
+	ast.Inspect(n, func(x ast.Node) bool {
+		switch y := x.(type) {
+		case *ast.FuncLit:
+			return true
+		case *ast.SelectorExpr:
+			if id, ok := y.X.(*ast.Ident); ok && id.Name == w.recv {
+				if w.fields[y.Sel.Name] {
+					if !w.mutexes[y.Sel.Name] {
+						w.touches = append(w.touches, ltouch{w.method, y.Sel.Name, held})
+					}
+				} else {
+					w.calls[y.Sel.Name] = true
+				}
+			}
+		case *ast.CallExpr:
+			if sel, ok := y.Fun.(*ast.SelectorExpr); ok {
+				if f := w.fieldOf(sel.X); f != "" {
+					// a method call on a field: the field's object may be modified (list.PushBack, map ops ...)
+					if _, direct := sel.X.(*ast.SelectorExpr); direct {
+						w.mutated[f] = true
+					}
+				}
+			}
+			if id, ok := y.Fun.(*ast.Ident); ok && id.Name == "delete" && len(y.Args) > 0 {
+				if f := w.fieldOf(y.Args[0]); f != "" {
+					w.mutated[f] = true
+				}
+			}
+			if id, ok := y.Fun.(*ast.Ident); ok && id.Name == "close" && len(y.Args) == 1 {
+				if f := w.fieldOf(y.Args[0]); f != "" {
+					w.mutated[f] = true
+				}
+			}
+		case *ast.UnaryExpr:
+			if y.Op == token.ARROW {
+				if f := w.fieldOf(y.X); f != "" && w.chans[f] {
+					w.recvsCh = true
+				}
+			}
+		}
+		return true
+	})
+}
+
+func terminates(list []ast.Stmt) bool {
+	if len(list) == 0 {
+		return false
+	}
+	switch x := list[len(list)-1].(type) {
+	case *ast.ReturnStmt:
+		return true
+	case *ast.ExprStmt:
+		if c, ok := x.X.(*ast.CallExpr); ok {
+			if id, ok := c.Fun.(*ast.Ident); ok && id.Name == "panic" {
+				return true
+			}
+		}
+	case *ast.BranchStmt:
+		return true
+	}
+	return false
+}
+
+func (w *lwalker) stmts(list []ast.Stmt, held bool) bool {
+	for _, s := range list {
+		held = w.stmt(s, held)
+	}
+	return held
+}
+
+func (w *lwalker) stmt(s ast.Stmt, held bool) bool {
+	switch x := s.(type) {
+	case nil:
+	case *ast.ExprStmt:
+		if op, ok := w.lockOp(x.X); ok {
+			w.locks = true
+			return op == "Lock" || op == "RLock"
+		}
+		w.expr(x.X, held)
+	case *ast.DeferStmt:
+		if _, ok := w.lockOp(x.Call); ok {
+			return held
+		}
+		w.expr(x.Call, held)
+	case *ast.GoStmt:
+		w.expr(x.Call, false)
+	case *ast.AssignStmt:
+		for _, l := range x.Lhs {
+			if f := w.fieldOf(l); f != "" {
+				w.mutated[f] = true
+			}
+			w.expr(l, held)
+		}
+		for _, r := range x.Rhs {
+			w.expr(r, held)
+		}
+	case *ast.IncDecStmt:
+		if f := w.fieldOf(x.X); f != "" {
+			w.mutated[f] = true
+		}
+		w.expr(x.X, held)
+	case *ast.SendStmt:
+		w.expr(x.Chan, held)
+		w.expr(x.Value, held)
+	case *ast.ReturnStmt:
+		for _, r := range x.Results {
+			w.expr(r, held)
+		}
+	case *ast.DeclStmt:
+		w.expr(x.Decl, held)
+	case *ast.BlockStmt:
+		return w.stmts(x.List, held)
+	case *ast.IfStmt:
+		h := w.stmt(x.Init, held)
+		w.expr(x.Cond, h)
+		hb := w.stmts(x.Body.List, h)
+		he := h
+		elseTerm := false
+		if x.Else != nil {
+			he = w.stmt(x.Else, h)
+			if b, ok := x.Else.(*ast.BlockStmt); ok {
+				elseTerm = terminates(b.List)
+			}
+		}
+		switch {
+		case terminates(x.Body.List):
+			return he
+		case elseTerm:
+			return hb
+		default:
+			return hb && he
+		}
+	case *ast.ForStmt:
+		h := w.stmt(x.Init, held)
+		w.expr(x.Cond, h)
+		hb := w.stmts(x.Body.List, h)
+		w.stmt(x.Post, hb)
+		return hb // a `for {}` loop is left by break/return only: the flag at its breaks is the body's
+	case *ast.RangeStmt:
+		w.expr(x.X, held)
+		w.stmts(x.Body.List, held)
+	case *ast.SwitchStmt:
+		h := w.stmt(x.Init, held)
+		w.expr(x.Tag, h)
+		for _, c := range x.Body.List {
+			cc := c.(*ast.CaseClause)
+			for _, e := range cc.List {
+				w.expr(e, h)
+			}
+			w.stmts(cc.Body, h)
+		}
+		return h
+	case *ast.TypeSwitchStmt:
+		h := w.stmt(x.Init, held)
+		w.stmt(x.Assign, h)
+		for _, c := range x.Body.List {
+			w.stmts(c.(*ast.CaseClause).Body, h)
+		}
+		return h
+	case *ast.SelectStmt:
+		for _, c := range x.Body.List {
+			cc := c.(*ast.CommClause)
+			w.stmt(cc.Comm, held)
+			w.stmts(cc.Body, held)
+		}
+	case *ast.LabeledStmt:
+		return w.stmt(x.Stmt, held)
+	case *ast.BranchStmt, *ast.EmptyStmt:
+	default:
+		w.expr(s, held)
+	}
+	return held
+}
+
+func coqStr(s string) string { return "\"" + strings.ReplaceAll(s, "\"", "") + "\"%string" }
+func coqStrs(xs []string) string {
+	var q []string
+	for _, x := range xs {
+		q = append(q, coqStr(x))
+	}
+	return glist(q)
+}
+func sortedKeys(m map[string]bool) []string {
+	var ks []string
+	for k, v := range m {
+		if v {
+			ks = append(ks, k)
+		}
+	}
+	sort.Strings(ks)
+	return ks
+}
+
+func genLockTable(repo string, out *bytes.Buffer) error {
+	var dirs []string
+	var walk func(rel string) error
+	walk = func(rel string) error {
+		ents, err := os.ReadDir(filepath.Join(repo, rel))
+		if err != nil {
+			return err
+		}
+		hasGo := false
+		for _, e := range ents {
+			n := e.Name()
+			if e.IsDir() {
+				if strings.HasPrefix(n, ".") || (rel == "" && (n == "data" || n == "examples" || n == "cmd")) {
+					continue
+				}
+				if err := walk(filepath.Join(rel, n)); err != nil {
+					return err
+				}
+			} else if strings.HasSuffix(n, ".go") && !strings.HasSuffix(n, "_test.go") {
+				hasGo = true
+			}
+		}
+		if hasGo && rel != "" {
+			dirs = append(dirs, rel)
+		}
+		return nil
+	}
+	if err := walk(""); err != nil {
+		return err
+	}
+	sort.Strings(dirs)
+	var rows []lockRow
+	for _, dir := range dirs {
+		fset := token.NewFileSet()
+		files, pkg, err := parseDir(fset, filepath.Join(repo, dir))
+		if err != nil {
+			return err
+		}
+		_ = pkg
+		type sinfo struct {
+			fields map[string]string // field -> type string
+			order  []string
+		}
+		structs := map[string]*sinfo{}
+		var snames []string
+		methods := map[string][]*ast.FuncDecl{}
+		for _, f := range files {
+			for _, d := range f.Decls {
+				switch x := d.(type) {
+				case *ast.GenDecl:
+					for _, sp := range x.Specs {
+						switch y := sp.(type) {
+						case *ast.TypeSpec:
+							switch t := y.Type.(type) {
+							case *ast.StructType:
+								si := &sinfo{fields: map[string]string{}}
+								for _, fl := range t.Fields.List {
+									for _, n := range fl.Names {
+										si.fields[n.Name] = typeString(fl.Type)
+										si.order = append(si.order, n.Name)
+									}
+								}
+								structs[y.Name.Name] = si
+								snames = append(snames, y.Name.Name)
+							case *ast.ChanType:
+								rows = append(rows, lockRow{typ: dir + "." + y.Name.Name, kind: "chan-type", field: ""})
+							}
+						case *ast.ValueSpec:
+							if x.Tok != token.VAR {
+								continue
+							}
+							for i, n := range y.Names {
+								t := ""
+								if y.Type != nil {
+									t = typeString(y.Type)
+								} else if i < len(y.Values) {
+									if cl, ok := y.Values[i].(*ast.CompositeLit); ok {
+										t = typeString(cl.Type)
+									}
+								}
+								if k := isSyncType(t); k != "" || t == "chan" {
+									if t == "chan" {
+										k = "chan"
+									}
+									rows = append(rows, lockRow{typ: dir + " (package variable)", kind: k, field: n.Name})
+								}
+							}
+						}
+					}
+				case *ast.FuncDecl:
+					if tn, _ := recvTypeOf(x); tn != "" && x.Body != nil {
+						methods[tn] = append(methods[tn], x)
+					}
+					// goroutine literals writing fields of locals
+					if x.Body != nil {
+						ast.Inspect(x.Body, func(n ast.Node) bool {
+							g, ok := n.(*ast.GoStmt)
+							if !ok {
+								return true
+							}
+							fl, ok := g.Call.Fun.(*ast.FuncLit)
+							if !ok {
+								return true
+							}
+							ast.Inspect(fl.Body, func(m ast.Node) bool {
+								as, ok := m.(*ast.AssignStmt)
+								if !ok {
+									return true
+								}
+								for _, l := range as.Lhs {
+									if sel, ok := l.(*ast.SelectorExpr); ok {
+										if id, ok := sel.X.(*ast.Ident); ok {
+											rows = append(rows, lockRow{typ: dir + "." + x.Name.Name, kind: "goroutine-write", field: id.Name + "." + sel.Sel.Name})
+										}
+									}
+								}
+								return true
+							})
+							return true
+						})
+					}
+				}
+			}
+		}
+		sort.Strings(snames)
+		for _, sn := range snames {
+			si := structs[sn]
+			mutexes, chans := map[string]bool{}, map[string]bool{}
+			var others [][2]string
+			for _, fn := range si.order {
+				t := si.fields[fn]
+				switch k := isSyncType(t); {
+				case k == "mutex" || k == "rwmutex" || k == "cond":
+					mutexes[fn] = true
+				case t == "chan":
+					chans[fn] = true
+				case k != "":
+					others = append(others, [2]string{k, fn})
+				}
+			}
+			for _, o := range others {
+				rows = append(rows, lockRow{typ: dir + "." + sn, kind: o[0], field: o[1]})
+			}
+			if len(mutexes) == 0 && len(chans) == 0 {
+				continue
+			}
+			fields := map[string]bool{}
+			for f := range si.fields {
+				fields[f] = true
+			}
+			var ws []*lwalker
+			mutated := map[string]bool{}
+			for _, fd := range methods[sn] {
+				_, rn := recvTypeOf(fd)
+				w := &lwalker{recv: rn, fields: fields, mutexes: mutexes, method: fd.Name.Name, mutated: mutated, calls: map[string]bool{}, chans: chans}
+				if rn != "" {
+					w.stmts(fd.Body.List, false)
+				}
+				ws = append(ws, w)
+			}
+			sort.Slice(ws, func(i, j int) bool { return ws[i].method < ws[j].method })
+			row := lockRow{typ: dir + "." + sn}
+			if len(mutexes) > 0 {
+				row.kind = "mutex"
+				row.field = strings.Join(sortedKeys(mutexes), ",")
+				for f := range mutexes {
+					if isSyncType(si.fields[f]) != "mutex" {
+						row.kind = isSyncType(si.fields[f])
+					}
+				}
+				under := map[string]bool{}
+				for _, w := range ws {
+					if w.locks {
+						row.locking = append(row.locking, w.method)
+					}
+					for _, t := range w.touches {
+						if t.held && mutated[t.field] && !chans[t.field] {
+							under[t.field] = true
+						}
+					}
+				}
+				row.protected = sortedKeys(under)
+				seen := map[[2]string]bool{}
+				for _, w := range ws {
+					for _, t := range w.touches {
+						k := [2]string{t.method, t.field}
+						if !t.held && under[t.field] && !seen[k] {
+							seen[k] = true
+							row.unlocked = append(row.unlocked, k)
+						}
+					}
+				}
+			} else {
+				row.kind = "chan-confined"
+				row.field = strings.Join(sortedKeys(chans), ",")
+				owner := map[string]bool{}
+				byName := map[string]*lwalker{}
+				for _, w := range ws {
+					byName[w.method] = w
+					if w.recvsCh {
+						owner[w.method] = true
+					}
+				}
+				for changed := true; changed; {
+					changed = false
+					for m := range owner {
+						for c := range byName[m].calls {
+							if byName[c] != nil && !owner[c] {
+								owner[c] = true
+								changed = true
+							}
+						}
+					}
+				}
+				row.locking = sortedKeys(owner)
+				under := map[string]bool{}
+				for _, w := range ws {
+					if owner[w.method] {
+						for _, t := range w.touches {
+							if !chans[t.field] {
+								under[t.field] = true
+							}
+						}
+					}
+				}
+				row.protected = sortedKeys(under)
+				seen := map[[2]string]bool{}
+				for _, w := range ws {
+					if owner[w.method] {
+						continue
+					}
+					for _, c := range sortedKeys(w.calls) { // a method of the owner goroutine called from outside it
+						if owner[c] {
+							row.unlocked = append(row.unlocked, [2]string{w.method, c + "()"})
+						}
+					}
+					for _, t := range w.touches {
+						k := [2]string{t.method, t.field}
+						if under[t.field] && !seen[k] {
+							seen[k] = true
+							row.unlocked = append(row.unlocked, k)
+						}
+					}
+				}
+			}
+			rows = append(rows, row)
+		}
+	}
+	sort.SliceStable(rows, func(i, j int) bool {
+		if rows[i].typ != rows[j].typ {
+			return rows[i].typ < rows[j].typ
+		}
+		if rows[i].kind != rows[j].kind {
+			return rows[i].kind < rows[j].kind
+		}
+		return rows[i].field < rows[j].field
+	})
+	out.WriteString("(* every owner of a synchronisation object outside data/, examples/, cmd/ (tools/gotrans/pool.go: genLockTable):\n   type, kind, sync field(s), protected fields, methods that lock / own the state, (method, field) touched WITHOUT the lock *)\n")
+	out.WriteString("Record lockrow := mkLR { lr_type : string; lr_kind : string; lr_field : string; lr_protected : list string;\n  lr_locking : list string; lr_unlocked : list (string * string) }.\n")
+	out.WriteString("Definition lock_table : list lockrow :=\n  [")
+	var uniq []lockRow
+	for i, r := range rows {
+		if i > 0 && r.kind == "goroutine-write" && rows[i-1].kind == r.kind && rows[i-1].typ == r.typ && rows[i-1].field == r.field {
+			continue
+		}
+		uniq = append(uniq, r)
+	}
+	rows = uniq
+	for i, r := range rows {
+		if i > 0 {
+			out.WriteString(";\n   ")
+		}
+		var un []string
+		for _, u := range r.unlocked {
+			un = append(un, "("+coqStr(u[0])+", "+coqStr(u[1])+")")
+		}
+		fmt.Fprintf(out, "mkLR %s %s %s %s %s %s", coqStr(r.typ), coqStr(r.kind), coqStr(r.field), coqStrs(r.protected), coqStrs(r.locking), glist(un))
+	}
+	out.WriteString("].\n\n")
 	return nil
 }
